@@ -451,7 +451,7 @@ class NpProxy(object):
             return np.linalg.norm(a, *k, **kw)
 
         def pinv(self, m, *k, **kw):
-            return pinv_contract(m, np.linalg.pinv)
+            return pinv_contract(m, np.linalg.pinv, k, kw)
     linalg = _Linalg()
 
 
@@ -483,9 +483,17 @@ def _percentile_contract(a, q, axis, tag):
 
 # ---------------------------------------------------------------- dependency contracts (scipy / numpy.linalg)
 PINV_LOG = []
+PINV_ARGS = []     # (args, kwargs) of every pinv call: the contract only covers the default cut-off
 
 
-def pinv_contract(m, real_impl):
+def pinv_contract(m, real_impl, args=(), kwargs=None):
+    PINV_ARGS.append((tuple(args), dict(kwargs or {})))
+    if not is_sym(m):
+        return real_impl(m, *args, **(kwargs or {}))
+    return _pinv_contract(m, real_impl)
+
+
+def _pinv_contract(m, real_impl):
     """pinv of a square, non-singular matrix: fresh P with M.P = I and P.M = I (assumed; non-singularity becomes an
     explicit assumption of the caller's obligations).  Logged so the harness can use the hypotheses."""
     if not is_sym(m):
@@ -513,7 +521,7 @@ class LinalgProxy(object):
         return getattr(self._m, k)
 
     def pinv(self, m, *a, **k):
-        return pinv_contract(m, self._m.pinv)
+        return pinv_contract(m, self._m.pinv, a, k)
 
     def norm(self, a, *k, **kw):
         return NpProxy.linalg.norm(a, *k, **kw)
@@ -566,6 +574,35 @@ def sym_convolve1d(inp, w, axis=0, origin=0, real_impl=None, **kw):
         acc = 0
         for j in range(L):
             acc = acc + wr[j] * inp[refl(i + j - L // 2 - org)]
+        out[i] = acc
+    return out.view(SymArr)
+
+
+def sym_correlate1d(inp, w, axis=0, origin=0, real_impl=None, **kw):
+    """assumed contract of scipy.ndimage.correlate1d (mode='reflect'): out[i] = sum_j conj(w[j]) * in[i+j-L//2-origin]
+    (scipy conjugates complex weights in correlate); conformance-tested against scipy."""
+    if not (is_sym(inp) or is_sym(w)):
+        return real_impl(inp, w, axis=axis, origin=origin, **kw)
+    if kw.get('mode', 'reflect') != 'reflect' or axis != 0:
+        raise NeedsConcrete('correlate1d contract covers axis=0, mode=reflect only')
+    inp = asobj(inp)
+    w = [lift(v).conjugate() if isinstance(lift(v), C) else v for v in asobj(w).ravel()]
+    n = inp.shape[0]
+    L = len(w)
+    if not (-(L // 2) <= origin <= (L - 1) // 2):
+        raise ValueError('invalid origin')
+    out = np.empty(inp.shape, dtype=object)
+
+    def refl(k):
+        if n == 1:
+            return 0
+        p = 2 * n
+        k = k % p
+        return k if k < n else p - 1 - k
+    for i in range(n):
+        acc = 0
+        for j in range(L):
+            acc = acc + w[j] * inp[refl(i + j - L // 2 - origin)]
         out[i] = acc
     return out.view(SymArr)
 
@@ -652,6 +689,9 @@ def installed(*mods, **bindings):
             if 'convolve1d' in m.__dict__:
                 real = m.__dict__['convolve1d']
                 setg(m, 'convolve1d', (lambda real: lambda inp, w, **kw: sym_convolve1d(inp, w, real_impl=real, **kw))(real))
+            if 'correlate1d' in m.__dict__:
+                real = m.__dict__['correlate1d']
+                setg(m, 'correlate1d', (lambda real: lambda inp, w, **kw: sym_correlate1d(inp, w, real_impl=real, **kw))(real))
             if 'factorial' in m.__dict__ and not isinstance(m.__dict__['factorial'], type):
                 sp = SpecialProxy(type('M', (), {'factorial': staticmethod(m.__dict__['factorial'])}))
                 setg(m, 'factorial', sp.factorial)
